@@ -8,6 +8,9 @@ SPAKE2.
 import time, os
 import z3
 
+import sys
+if hasattr(sys, "set_int_max_str_digits"):
+    sys.set_int_max_str_digits(0)          # bounds such as 256**5000 are handed to z3 as decimal numerals
 SEED = int(os.environ.get("VERIF_SEED", "0") or 0)
 z3.set_param("smt.random_seed", SEED % (2 ** 31))
 z3.set_param("sat.random_seed", SEED % (2 ** 31))
